@@ -143,6 +143,8 @@ def describe(e):
 
 
 def generate(rng, seed, size):
+    if size == "huge":
+        return [("c05_huge.rs", generate_huge(rng, seed, size))]
     enums = []
     idx = 0
     target = {"small": 24, "base": 96, "large": 160, "robust": 30}[size]
@@ -237,4 +239,39 @@ def generate(rng, seed, size):
     for p in probes:
         probe.append("    assert_send_sync::<<corpus::%s as strum::IntoEnumIterator>::Iterator>(); n += 1;\n" % p)
     probe.append("    n\n}\n")
-    return [("c05.rs", "".join(out)), ("c05_probe.rs", "".join(probe))]
+    return [("c05.rs", "".join(out)), ("c05_probe.rs", "".join(probe)), ("c05_huge.rs", generate_huge(rng, seed, size))]
+
+
+def generate_huge(rng, seed, size):
+    """Enums around the 2^16 boundary (thorough tier only: each takes about a minute to compile).
+    Debug/PartialEq are written by hand (the derives make rustc run out of memory at this size) and the
+    expected list is built from the discriminants (repr(u32), implicit discriminants 0..), never by strum."""
+    out = []
+    out.append("// @generated by /verif/gen/gen_corpus.py --seed %d (engine c05, huge enums, size %s). Do not edit.\n" % (seed, size))
+    out.append("use strum::EnumIter;\nuse strum_sim::c05::{mk, Case, IterHandle};\n\n")
+    cases = []
+    sizes = [65535, 65536, 65537] if size == "huge" else []  # every other size gets an empty stub
+    for i, n in enumerate(sizes):
+        name = "H%d" % i
+        # one of them carries disabled variants: at the front, across the 2^8 boundary and at the very end
+        disabled = set()
+        if i == 1:
+            disabled = {0, 255, 256, 40000, n + 3}
+        total = n + len(disabled)
+        out.append("#[derive(EnumIter, Clone, Copy)]\n#[repr(u32)]\npub enum %s {\n" % name)
+        for d in range(total):
+            if d in disabled:
+                out.append("    #[strum(disabled)]\n")
+            out.append("    V%d,\n" % d)
+        out.append("}\n")
+        out.append("impl PartialEq for %s { fn eq(&self, o: &%s) -> bool { *self as u32 == *o as u32 } }\n" % (name, name))
+        out.append("impl core::fmt::Debug for %s { fn fmt(&self, f: &mut core::fmt::Formatter) -> core::fmt::Result { write!(f, \"V{}\", *self as u32) } }\n" % name)
+        dis = ", ".join(str(d) for d in sorted(disabled))
+        out.append("fn exp_%s() -> Vec<%s> {\n    let disabled: &[u32] = &[%s];\n    (0..%du32).filter(|d| !disabled.contains(d)).map(|d| unsafe { core::mem::transmute::<u32, %s>(d) }).collect()\n}\n"
+                   % (name.lower(), name, dis, total, name))
+        cases.append('    Case { name: "%s", n: %d, desc: "enum %s { %d variants, %d enabled, disabled at [%s] }", make: || mk::<%s>(exp_%s()) },\n'
+                     % (name, n, name, total, n, dis, name, name.lower()))
+    out.append("pub static CASES: &[Case] = &[\n")
+    out.extend(cases)
+    out.append("];\n")
+    return "".join(out)
